@@ -467,6 +467,24 @@ pub fn c17_reserve_items_vec_under_wrappers() {
         let _ = r2.push(*v);
         assert!(same_caps(before, caps(&r2)), "C17: CAPACITY-CHANGED while pushing exactly the owned items announced to a ResultRegion over vectors");
     }
+    // an Err (resp. an Ok) FIRST: a reservation that stops at the first item of the other kind reserves nothing
+    let err_first: [Result<u8, u8>; 4] = [Err(e[0]), Ok(e[1]), Ok(e[2]), Err(e[3])];
+    let ok_first: [Result<u8, u8>; 4] = [Ok(e[0]), Err(e[1]), Err(e[2]), Ok(e[3])];
+    let mut r3 = R::default();
+    r3.reserve_items(err_first.iter().copied());
+    let before = caps(&r3);
+    for v in err_first.iter() {
+        let _ = r3.push(*v);
+        assert!(same_caps(before, caps(&r3)), "C17: CAPACITY-CHANGED while pushing an owned batch that starts with an Err");
+    }
+    let mut r4 = R::default();
+    r4.reserve_items(ok_first.iter().copied());
+    let before = caps(&r4);
+    for v in ok_first.iter() {
+        let _ = r4.push(*v);
+        assert!(same_caps(before, caps(&r4)), "C17: CAPACITY-CHANGED while pushing an owned batch that starts with an Ok");
+    }
+    sym::forget((r3, r4));
     cover!(true, "end reached");
     sym::forget((t, r, r2));
 }
